@@ -702,25 +702,83 @@ def _solve(assertions, timeout_ms, tactic=None):
     return r, m, dt
 
 
-def _has_uf_or_int(fs):
+_SYMS = {}
+
+
+def _symbols(e):
+    """ids of uninterpreted constants / names of uninterpreted functions occurring in e (cached by expr id)"""
+    key = e.get_id()
+    hit = _SYMS.get(key)
+    if hit is not None and hit[0].eq(e):
+        return hit[1]
+    out = set()
     seen = set()
-    stack = list(fs)
+    stack = [e]
     while stack:
-        e = stack.pop()
-        i = e.get_id()
+        t = stack.pop()
+        i = t.get_id()
         if i in seen:
             continue
         seen.add(i)
-        if z3.is_app(e):
-            k = e.decl().kind()
-            if k == z3.Z3_OP_UNINTERPRETED and e.num_args() > 0:
-                return True
-            if e.sort() == I or k in (z3.Z3_OP_TO_REAL, z3.Z3_OP_TO_INT, z3.Z3_OP_IDIV, z3.Z3_OP_MOD):
-                return True
-            stack.extend(e.children())
-        else:
-            return True
-    return False
+        if z3.is_app(t):
+            d = t.decl()
+            if d.kind() == z3.Z3_OP_UNINTERPRETED:
+                out.add(d.name())
+            stack.extend(t.children())
+    _SYMS[key] = (e, frozenset(out))
+    return _SYMS[key][1]
+
+
+def _slice(constraints, goal_syms):
+    """cone of influence: the constraints transitively sharing a symbol with the goal"""
+    info = [(c, _symbols(c)) for c in constraints]
+    syms = set(goal_syms)
+    chosen = [False] * len(info)
+    changed = True
+    while changed:
+        changed = False
+        for k, (c, ss) in enumerate(info):
+            if not chosen[k] and (ss & syms or not ss):
+                chosen[k] = True
+                if not ss <= syms:
+                    syms |= ss
+                    changed = True
+    return [c for k, (c, _) in enumerate(info) if chosen[k]], [c for k, (c, _) in enumerate(info) if not chosen[k]]
+
+
+class MultiModel:
+    """models of independent (symbol-disjoint) sub-problems, evaluated in sequence"""
+
+    def __init__(self, models):
+        self.models = [m for m in models if m is not None]
+
+    def eval(self, e, model_completion=True):
+        for m in self.models[:-1]:
+            e = m.eval(e, model_completion=False)
+        return self.models[-1].eval(e, model_completion=model_completion)
+
+
+def _strategies(goal, timeout_ms):
+    """returns (result, model, seconds, backend); several attempts because z3 is not robust on UF+NRA"""
+    total = 0.0
+    try:
+        r, m, dt = _solve(goal, max(2000, timeout_ms // 4), tactic="qfnra-nlsat")
+        total += dt
+        if r != z3.unknown:
+            return r, m, total, "z3-nlsat"
+    except z3.Z3Exception:
+        pass
+    for seed in (0, 7):
+        s = z3.Solver()
+        s.set("timeout", max(2000, timeout_ms // 2))
+        s.set("random_seed", seed)
+        s.add(*goal)
+        t = time.time()
+        r = s.check()
+        total += time.time() - t
+        if r != z3.unknown:
+            return r, (s.model() if r == z3.sat else None), total, "z3"
+    return z3.unknown, None, total, "z3"
 
 
 def discharge(eng, path, obligations, *, timeout_ms=20000, hints=(), use_cvc5=True):
@@ -736,19 +794,10 @@ def discharge(eng, path, obligations, *, timeout_ms=20000, hints=(), use_cvc5=Tr
         if z3.is_true(fs):
             out.append(Verdict(name, "unsat", seconds=0.0, formula=f, backend="simplify"))
             continue
-        goal = base + [z3.Not(f)]
-        r, m, dt, backend = z3.unknown, None, 0.0, "z3"
-        if True:
-            try:
-                r, m, dt = _solve(goal, max(2000, timeout_ms // 4), tactic="qfnra-nlsat")
-                backend = "z3-nlsat"
-            except z3.Z3Exception:
-                r = z3.unknown
-        if r == z3.unknown:
-            r2, m2, dt2 = _solve(goal, timeout_ms)
-            dt += dt2
-            if r2 != z3.unknown:
-                r, m, backend = r2, m2, "z3"
+        neg = z3.Not(f)
+        inside, outside = _slice(base, _symbols(neg))
+        goal = inside + [neg]
+        r, m, dt, backend = _strategies(goal, timeout_ms)
         if r == z3.unknown and use_cvc5:
             from vf import cvc5x
 
@@ -756,6 +805,11 @@ def discharge(eng, path, obligations, *, timeout_ms=20000, hints=(), use_cvc5=Tr
             dt += dt3
             if r3 == "unsat":
                 r, backend = z3.unsat, "cvc5"
+        if r == z3.sat and outside:
+            # complete the counterexample with a model of the independent remainder (validated later by replay)
+            r2, m2, dt2, _ = _strategies(outside, timeout_ms)
+            dt += dt2
+            m = MultiModel([m, m2])
         eng.queries += 1
         eng.solver_time += dt
         out.append(Verdict(name, str(r), model=m, seconds=dt, formula=f, backend=backend))
